@@ -246,42 +246,42 @@ def Outcome.isFailed : Outcome → Bool
   | _ => false
 
 theorem undoRedo_one_undo {h : Hist} {r q : UOp} {rest : List (List UOp)} {d' : Doc} (hu : h.undo = [r] :: rest)
-    (hp : r.plain = true) (he : uexecute h.doc h.tw .undoRedo (r.withTs h.next) = .ok (d', some q)) :
+    (hp : r.plain = true) (he : uexecute h.doc noTw .undoRedo (r.withTs h.next) = .ok (d', some q)) :
     undoRedo h true = ({ h with undo := rest, redo := push h.redo [q], doc := d', lamport := h.lamport + 1 },
       .change [r.withTs h.next]) := by
   unfold Hist.next at he ⊢
-  simp only [undoRedo, hu, if_true, List.isEmpty_cons, Bool.false_eq_true, if_false,
-    reticket_one _ hp, runOps, he, twinIds_plain (plain_withTs _ hp), addTwins_nil, List.nil_append,
+  simp only [undoRedo_eq, hu, if_true, List.isEmpty_cons, Bool.false_eq_true, if_false,
+    reticket_one _ hp, runOps_cons, runOps_nil, he, List.nil_append,
     Option.toList_some, List.reverse_cons, List.reverse_nil]
 
 theorem undoRedo_one_redo {h : Hist} {r q : UOp} {rest : List (List UOp)} {d' : Doc} (hu : h.redo = [r] :: rest)
-    (hp : r.plain = true) (he : uexecute h.doc h.tw .undoRedo (r.withTs h.next) = .ok (d', some q)) :
+    (hp : r.plain = true) (he : uexecute h.doc noTw .undoRedo (r.withTs h.next) = .ok (d', some q)) :
     undoRedo h false = ({ h with redo := rest, undo := push h.undo [q], doc := d', lamport := h.lamport + 1 },
       .change [r.withTs h.next]) := by
   unfold Hist.next at he ⊢
-  simp only [undoRedo, hu, Bool.false_eq_true, if_false, List.isEmpty_cons,
-    reticket_one _ hp, runOps, he, twinIds_plain (plain_withTs _ hp), addTwins_nil, List.nil_append,
+  simp only [undoRedo_eq, hu, Bool.false_eq_true, if_false, List.isEmpty_cons,
+    reticket_one _ hp, runOps_cons, runOps_nil, he, List.nil_append,
     Option.toList_some, List.reverse_cons, List.reverse_nil]
 
 theorem move_undo_step {h1 : Hist} {p prev1 target ts0 : Ticket} {rest : List (List UOp)}
     (hu : h1.undo = [.move p prev1 target ts0] :: rest) (ok : MoveOk h1.doc p prev1 target) :
     ∃ h2 prev2 ts ops, undoRedo h1 true = (h2, .change ops) ∧
       h2.redo = [.move p prev2 target ts] :: pushTail h1.redo ∧ MoveOk h2.doc p prev2 target := by
-  obtain ⟨d2, prev2, he2, ok2⟩ := move_exec (tw := h1.tw) (src := .undoRedo) (ts := h1.next) rfl ok
+  obtain ⟨d2, prev2, he2, ok2⟩ := move_exec (tw := noTw) (src := .undoRedo) (ts := h1.next) rfl ok
   exact ⟨_, prev2, h1.next, _, undoRedo_one_undo (r := .move p prev1 target ts0) hu (by rfl) he2,
     push_eq _ _, ok2⟩
 
 theorem move_redo_step {h1 : Hist} {p prev1 target ts0 : Ticket} {rest : List (List UOp)}
     (hu : h1.redo = [.move p prev1 target ts0] :: rest) (ok : MoveOk h1.doc p prev1 target) :
     ∃ h2 ops, undoRedo h1 false = (h2, .change ops) := by
-  obtain ⟨d2, prev2, he2, ok2⟩ := move_exec (tw := h1.tw) (src := .undoRedo) (ts := h1.next) rfl ok
+  obtain ⟨d2, prev2, he2, ok2⟩ := move_exec (tw := noTw) (src := .undoRedo) (ts := h1.next) rfl ok
   exact ⟨_, _, undoRedo_one_redo (r := .move p prev1 target ts0) hu (by rfl) he2⟩
 
 /-- undo and the following redo of an array move never fail -/
 theorem move_total {h : Hist} {p prev target : Ticket} (ok : MoveOk h.doc p prev target) :
     (undoRedo (doChange h [.move p prev target h.next]) true).2.isFailed = false ∧
     (undoRedo (undo (doChange h [.move p prev target h.next])) false).2.isFailed = false := by
-  obtain ⟨d1, prev1, he1, ok1⟩ := move_exec (tw := h.tw) (src := .loc) (ts := h.next) rfl ok
+  obtain ⟨d1, prev1, he1, ok1⟩ := move_exec (tw := noTw) (src := .loc) (ts := h.next) rfl ok
   rw [doChange_one (by rfl) he1]
   obtain ⟨h2, prev2, ts2, ops, hU, hr2, ok2⟩ := move_undo_step (p := p) (prev1 := prev1) (target := target)
     (h1 := { h with doc := d1, undo := push h.undo [UOp.move p prev1 target h.next], redo := [], lamport := h.lamport + 1 })
@@ -374,11 +374,12 @@ theorem aset_do {h : Hist} {p target : Ticket} {v : UVal} (hid : v.id = h.next) 
       (doChange h [.arraySet p target v h.next]).redo = [] ∧
       (doChange h [.arraySet p target v h.next]).lamport = h.lamport + 1 ∧
       ASOk (doChange h [.arraySet p target v h.next]).doc p h.next := by
-  obtain ⟨d1, cv, he, ok1⟩ := aset_exec (tw := h.tw) (src := .loc) rfl hid (next_ne hp) ok
+  obtain ⟨d1, cv, he, ok1⟩ := aset_exec (tw := noTw) (src := .loc) rfl hid (next_ne hp) ok
   refine ⟨cv, pushTail (reconcileStack target v.id h.undo), ?_, ?_, ?_, ?_⟩ <;>
-  simp only [doChange, List.isEmpty_cons, Bool.false_eq_true, if_false, runOps, he, List.nil_append,
-    Option.toList_some, reconcileSets, Hist.reconcile, List.reverse_cons, List.reverse_nil, push_eq]
-  exact ok1
+  simp only [doChange_eq, List.isEmpty_cons, Bool.false_eq_true, if_false, runOps_cons, runOps_nil, he,
+    List.nil_append, Option.toList_some, List.reverse_cons, List.reverse_nil, push_eq]
+  · rfl
+  · exact ok1
 
 theorem aset_undo_step {h1 : Hist} {p target ts0 : Ticket} {cv : UVal} {rest : List (List UOp)}
     (hu : h1.undo = [.arraySet p target cv ts0] :: rest) (hp : p.lamport ≤ h1.lamport)
@@ -386,35 +387,40 @@ theorem aset_undo_step {h1 : Hist} {p target ts0 : Ticket} {cv : UVal} {rest : L
     (undoRedo h1 true).2.isFailed = false ∧
     ∃ cv2 rest2, (undo h1).redo = [.arraySet p h1.next cv2 h1.next] :: rest2 ∧
       (undo h1).lamport = h1.lamport + 1 ∧ ASOk (undo h1).doc p h1.next := by
-  obtain ⟨d2, cv2, he, ok2⟩ := aset_exec (tw := h1.tw) (src := .undoRedo) (v := cv.reid h1.next) rfl rfl
+  obtain ⟨d2, cv2, he, ok2⟩ := aset_exec (tw := noTw) (src := .undoRedo) (v := cv.reid h1.next) rfl rfl
     (next_ne hp) ok
-  have he' : uexecute h1.doc h1.tw .undoRedo
+  have he' : uexecute h1.doc noTw .undoRedo
       (.arraySet p target (cv.reid ⟨h1.lamport + 1, 1, h1.actor⟩) ⟨h1.lamport + 1, 1, h1.actor⟩) =
       .ok (d2, some (.arraySet p ⟨h1.lamport + 1, 1, h1.actor⟩ cv2 ⟨h1.lamport + 1, 1, h1.actor⟩)) := he
-  refine ⟨?_, cv2, pushTail (reconcileStack target h1.next h1.redo), ?_, ?_, ?_⟩
-  · simp only [undoRedo, hu, if_true, List.isEmpty_cons, Bool.false_eq_true, if_false, reticket, Hist.reconcile,
-      runOps, he', List.nil_append, Option.toList_some, List.reverse_cons, List.reverse_nil]
+  refine ⟨?_, cv2, pushTail (reconcileStack cv.id h1.next (reconcileStack target h1.next h1.redo)), ?_, ?_, ?_⟩
+  · simp only [undoRedo_eq, hu, if_true, List.isEmpty_cons, Bool.false_eq_true, if_false, reticket_single,
+      Hist.reconcile_eq, runOps_cons, runOps_nil, he', List.nil_append, Option.toList_some, List.reverse_cons,
+      List.reverse_nil]
     rfl
-  · simp only [undo, undoRedo, hu, if_true, List.isEmpty_cons, Bool.false_eq_true, if_false, reticket, Hist.reconcile,
-      runOps, he', List.nil_append, Option.toList_some, List.reverse_cons, List.reverse_nil, push_eq]
+  · simp only [undo, undoRedo_eq, hu, if_true, List.isEmpty_cons, Bool.false_eq_true, if_false, reticket_single,
+      Hist.reconcile_eq, runOps_cons, runOps_nil, he', List.nil_append, Option.toList_some, List.reverse_cons,
+      List.reverse_nil, push_eq]
     rfl
-  · simp only [undo, undoRedo, hu, if_true, List.isEmpty_cons, Bool.false_eq_true, if_false, reticket, Hist.reconcile,
-      runOps, he', List.nil_append, Option.toList_some, List.reverse_cons, List.reverse_nil]
-  · simp only [undo, undoRedo, hu, if_true, List.isEmpty_cons, Bool.false_eq_true, if_false, reticket, Hist.reconcile,
-      runOps, he', List.nil_append, Option.toList_some, List.reverse_cons, List.reverse_nil]
+  · simp only [undo, undoRedo_eq, hu, if_true, List.isEmpty_cons, Bool.false_eq_true, if_false, reticket_single,
+      Hist.reconcile_eq, runOps_cons, runOps_nil, he', List.nil_append, Option.toList_some, List.reverse_cons,
+      List.reverse_nil]
+  · simp only [undo, undoRedo_eq, hu, if_true, List.isEmpty_cons, Bool.false_eq_true, if_false, reticket_single,
+      Hist.reconcile_eq, runOps_cons, runOps_nil, he', List.nil_append, Option.toList_some, List.reverse_cons,
+      List.reverse_nil]
     exact ok2
 
 theorem aset_redo_step {h1 : Hist} {p target ts0 : Ticket} {cv : UVal} {rest : List (List UOp)}
     (hu : h1.redo = [.arraySet p target cv ts0] :: rest) (hp : p.lamport ≤ h1.lamport)
     (ok : ASOk h1.doc p target) :
     (undoRedo h1 false).2.isFailed = false := by
-  obtain ⟨d2, cv2, he, ok2⟩ := aset_exec (tw := h1.tw) (src := .undoRedo) (v := cv.reid h1.next) rfl rfl
+  obtain ⟨d2, cv2, he, ok2⟩ := aset_exec (tw := noTw) (src := .undoRedo) (v := cv.reid h1.next) rfl rfl
     (next_ne hp) ok
-  have he' : uexecute h1.doc h1.tw .undoRedo
+  have he' : uexecute h1.doc noTw .undoRedo
       (.arraySet p target (cv.reid ⟨h1.lamport + 1, 1, h1.actor⟩) ⟨h1.lamport + 1, 1, h1.actor⟩) =
       .ok (d2, some (.arraySet p ⟨h1.lamport + 1, 1, h1.actor⟩ cv2 ⟨h1.lamport + 1, 1, h1.actor⟩)) := he
-  simp only [undoRedo, hu, Bool.false_eq_true, if_false, List.isEmpty_cons, reticket, Hist.reconcile,
-    runOps, he', List.nil_append, Option.toList_some, List.reverse_cons, List.reverse_nil]
+  simp only [undoRedo_eq, hu, Bool.false_eq_true, if_false, List.isEmpty_cons, reticket_single,
+    Hist.reconcile_eq, runOps_cons, runOps_nil, he', List.nil_append, Option.toList_some, List.reverse_cons,
+    List.reverse_nil]
   rfl
 
 /-- undo and the following redo of a set-by-index never fail -/
